@@ -493,6 +493,18 @@ def tile_oracle(ctx, li, app, q, url, ans, summ):
             ctx.fail('tile,%s,invalid-%s,effects' % (svc, what), 'invalid %s caused %r: %s' % (what, cost[:3], url), rep)
         return
     # valid request: the last valid row / column must be accepted
+    if is_fi and ans == 'Ok':
+        # the upstream GetFeatureInfo must be asked for the rectangle of the addressed tile (WMTS rows count from the north)
+        x, y, z = int(q['x']), int(q['y']), int(q['z'])
+        ny = li.grid.grid_sizes[z][1]
+        want = li.gc.tile_rect(x, y if li.gc.ul else ny - 1 - y, z)
+        for e in summ:
+            if e[0] == 'info':
+                tol = 0 if li.exact else 1e-6 * max(1.0, max(abs(float(v)) for v in want))
+                if any(abs(float(a) - float(b)) > tol for a, b in zip(e[1], want)):
+                    ctx.fail('featureinfo,%s,wrong-tile' % svc,
+                             'GetFeatureInfo for tile %r asked the upstream for bbox %r, the tile is %r: %s' % (
+                                 (x, y, z), e[1], [float(v) for v in want], url), rep)
     if is_fi:
         if q['infofmt'] in ('txt', 'text/plain') and li.opts['queryable'] and ans != 'Ok' and \
                 not (svc.startswith('Wmts') and not li.wmts_ok):
